@@ -292,7 +292,7 @@ func runVariant(sc *bw.Scenario, book *simkit.TapeBook, vi int, w *world, pkgAdd
 					fd := finderByName(a.Finder)
 					switch a.Kind {
 					case "remote":
-						addr, err := sourceaddrs.ParseRemoteSource(a.Addr)
+						addr, err := parseRemoteMaybeMade(a.Addr)
 						if err != nil {
 							rec.Panic = "harness: unparsable add address: " + err.Error()
 							return
